@@ -312,6 +312,51 @@ Section Thms.
     split; [assumption|]. split; [assumption|]. split; [rewrite K3, Hsub; reflexivity|].
     unfold out_bytes. fold st. rewrite K2, concat_app. cbn [concat]. rewrite app_nil_r. apply has_eof_app_magic.
   Qed.
+
+  (** ---- any fault plan of the underlying writer --------------------------- *)
+  Lemma prefix_firstn {A} (d l : list A) : prefix_of d l -> firstn (length d) l = d.
+  Proof. intros [t ->]. rewrite firstn_app, Nat.sub_diag, firstn_all. cbn. apply app_nil_r. Qed.
+
+  (** Whatever Write calls of the underlying writer fail (fault k = true: the
+      k-th call is refused and delivers nothing), in every reachable state the
+      chunks that were accepted are exactly the members of the first k
+      submitted blocks (then the marker iff Close succeeded): whole blocks, in
+      write order, decoding to a prefix of the data accepted so far.  Nothing
+      is delivered after a failure. *)
+  Theorem conc_block_prefix_faulty (fault : Z -> bool) wc script sched :
+    let st := run_conc deflate crc32 pm guard ovf lvl h fault wc script sched in
+    let s := x_api st in
+    exists k,
+      (k <= length (s_sub s))%nat
+      /\ x_out st = map Mb (firstn k (s_sub s)) ++ (if s_eof s then [bgzf_magicBlock] else [])
+      /\ gunzip_multi inflate crc32 (out_bytes st) = Some (concat (firstn k (s_sub s)))
+      /\ prefix_of (concat (firstn k (s_sub s))) (s_data s)
+      /\ (x_err st <> None -> s_eof s = false).
+  Proof.
+    intros st s.
+    destruct (run_conc_any deflate crc32 pm guard ovf lvl h deflate_bound gen_patch_at_12 Hl Hs fault wc script sched)
+      as [I|F]; fold st in I || fold st in F.
+    - pose proof (api_inv _ _ _ _ _ _ I) as SI. fold s in SI.
+      destruct (ci_chain _ _ _ _ _ _ I) as (done & ps & C1 & C2 & C3 & C4). fold s in C1, C3.
+      exists (length done).
+      assert (Hfirst : firstn (length done) (s_sub s) = done) by (apply prefix_firstn; exists ps; assumption).
+      rewrite Hfirst.
+      assert (Hsm : Forall small done).
+      { pose proof (si_sub _ _ SI) as X. rewrite C1 in X. apply Forall_app in X. tauto. }
+      split; [rewrite C1, app_length; lia|]. split; [assumption|].
+      split; [unfold out_bytes; fold st; rewrite C3; apply gunzip_multi_members; assumption|].
+      split.
+      { rewrite <- (si_data _ _ SI). rewrite C1. exists (concat ps ++ pend s). rewrite concat_app, <- app_assoc. reflexivity. }
+      intros E. pose proof (ci_err _ _ _ _ _ _ I). contradiction.
+    - destruct F as (He & Heof & done & D1 & D2 & D3 & D4). fold s in Heof, D1, D4.
+      exists (length done). rewrite (prefix_firstn _ _ D1).
+      split; [destruct D1 as [t ->]; rewrite app_length; lia|].
+      rewrite Heof. split; [rewrite app_nil_r; assumption|].
+      split.
+      { unfold out_bytes. fold st. rewrite D2. rewrite <- (app_nil_r (map _ done)).
+        change (@nil (list Z)) with (if false then [bgzf_magicBlock] else []). apply gunzip_multi_members. assumption. }
+      split; [assumption|]. intros _. reflexivity.
+  Qed.
 End Thms.
 
 (** ---- bam.NewWriter: Write(header); Flush(); Wait() ------------------------ *)
@@ -451,6 +496,17 @@ Section Final.
       /\ (quiescent st -> k = length (s_sub s))
       /\ x_err st = None /\ x_panic st = false.
   Proof. exact (conc_block_prefix deflate inflate crc32 L1 L2 L3 L4 lvl h H1 H2 wc script sched). Qed.
+
+  Lemma emitted_is_block_prefix_faulty_gen (fault : Z -> bool) wc script sched :
+    let st := run_conc deflate crc32 bgzf_wr_patch_mode bgzf_wr_patch_guard bgzf_wr_overflow_check lvl h fault wc script sched in
+    let s := x_api st in
+    exists k,
+      (k <= length (s_sub s))%nat
+      /\ x_out st = map (member_of deflate crc32 lvl h) (firstn k (s_sub s)) ++ (if s_eof s then [bgzf_magicBlock] else [])
+      /\ gunzip_multi inflate crc32 (out_bytes st) = Some (concat (firstn k (s_sub s)))
+      /\ prefix_of (concat (firstn k (s_sub s))) (s_data s)
+      /\ (x_err st <> None -> s_eof s = false).
+  Proof. exact (conc_block_prefix_faulty deflate inflate crc32 L1 L2 L3 L4 lvl h H1 H2 fault wc script sched). Qed.
 
   Lemma flush_wait_durable_gen wc script sched :
     let st := wr_conc deflate crc32 lvl h wc script sched in
